@@ -468,6 +468,8 @@ def run(cx, tier='quick'):
     rep.counts['HELP'] = k
     from .helpers import check_ident_or_index
     check_ident_or_index(cx, rep)
+    from .scope import check_scopes
+    check_scopes(cx, rep, ['::ord::', '::partial_ord::'])
     rep.floor('SUM-ORD', 7)
     rep.floor('SCAN', 16)
     rep.floor('HELP', 6)
